@@ -148,7 +148,7 @@ package client
 //@ structural C16: stores reconnectableClientImpl.closed in (*reconnectableClientImpl).Close value true
 
 // interference: other goroutines may change these between two critical sections
-//@ monitor reconnectableClientImpl.m: client, count, closed
+//@ monitor reconnectableClientImpl.m: client, count, closed, ghost live
 
 // a permanently closed client never reconnects: reconnect is called only with the closed
 // flag read false in the same critical section (other goroutines may set it at any
